@@ -563,7 +563,7 @@ def _geometry_chain(rng, nx, ny, sym):
     from openaerostruct.geometry.geometry_mesh import GeometryMesh
     ny = _odd(ny, sym)
     mesh, right = _geo_mesh(rng, nx, ny, sym)
-    pos = float(rng.uniform(0, 1))
+    pos = float(rng.choice([rng.uniform(0, 1), 0.0, 1.0, 0.25], p=[0.55, 0.2, 0.15, 0.1]))    # end points and default included
     ref = pos * mesh[-1] + (1 - pos) * mesh[0]
     cur_span = (ref[-1, 1] - ref[0, 1]) * (2 if sym else 1)
     default = rng.uniform() < 0.25
